@@ -311,6 +311,7 @@ GCM_ELAB = Unit("C09.elaborate_generatorbased_contextmanager", GC_ + "elaborate_
 ucg_result = Function("unwrap_context_generator_result", Val, Val, Val)
 eo_frame = Function("extract_outermost_result", Val, Val)
 eo_fails = Function("extract_outermost_no_frames", Val, BoolSort())
+eo_no_frames = Function("extract_outermost_fails_because_there_are_no_frames", Val, BoolSort())
 eo_frame_overridden = Function("extract_outermost_result_under_overridden_options", Val, Val)
 
 
@@ -339,6 +340,8 @@ def gcm_unwrap_setup(ex, p):
             for kn in ("RuntimeError", "OtherException"):
                 q = f.clone()
                 e = q.new_obj(kn)
+                # RuntimeError = "no frames" (nothing to dispatch on); anything else is a fault met while extracting
+                q.pc.append(eo_no_frames(args[0].t) if kn == "RuntimeError" else Not(eo_no_frames(args[0].t)))
                 q.ghost["raised"] = q.ghost.get("raised", ()) + (e,)
                 q.ghost["eo_raised"] = kn
                 res.append(("raise", q, SV(e, site="extract_outermost")))
@@ -365,9 +368,10 @@ def gcm_unwrap_post(ctx):
         return And(registered, BoolVal(len(calls) == 1), cc == c, r == ucg_result(fr, c),
                    If(Val.is_none(inner), fr == eo_frame(gen),
                       And(H0.length(frames) > 0, fr == ctx.p.elem(frames, 0, H0))))
-    # no dispatch: not registered, or the inner stack exists but is empty, or (exiting) the generator has no frames
+    # no dispatch: not registered, or the inner stack exists but is empty, or (exiting) the generator has no frames - a FAULT met
+    # while extracting the generator's frame is not "no frames": it must come out (C05), not end as "nothing to unwrap"
     return And(Val.is_none(r), Or(Not(registered), And(Not(Val.is_none(inner)), H0.length(frames) == 0),
-                                  And(Val.is_none(inner), eo_fails(gen))))
+                                  And(Val.is_none(inner), eo_fails(gen), eo_no_frames(gen))))
 
 
 def gcm_unwrap_raise_ok(ctx):
